@@ -75,6 +75,35 @@ Definition check_parts (c : parts_case) : N :=
            end
   end.
 
+(* svset: a sparse vector built from dense bits, then a sequence of set(index, value bits) calls;
+   per call the implementation reports: refused?, positions, value bits, to_dense bits, get(j) bits for every j.
+   Oracle: after every accepted call the vector reads back -- through to_dense AND through get -- as the dense
+   vector with that coordinate overwritten (-0.0 as +0.0), positions strictly increasing; a refused call has an
+   index outside the dimension. *)
+Definition svset_obs := (bool * list N * list N * list N * list N)%type.
+Definition svset_case := (list N * list (N * N) * list svset_obs)%type.
+Fixpoint strictly_inc (l : list N) : bool :=
+  match l with a :: ((b :: _) as r) => N.ltb a b && strictly_inc r | _ => true end.
+Fixpoint svset_walk (dense : list N) (s : N * list (N * N)) (ops : list (N * N)) (os : list svset_obs) (mm : bool) : N :=
+  match ops, os with
+  | [], [] => if mm then V_MISMATCH else V_OK
+  | (i, v) :: ops', (refused, ipos, ivals, iback, iget) :: os' =>
+      let inr := N.ltb i (N.of_nat (length dense)) in
+      if refused then (if inr then V_VIOLATION else svset_walk dense s ops' os' (mm || match sv_set s i v with None => false | Some _ => true end))
+      else if negb inr then V_VIOLATION
+      else
+        let dense' := set_at dense (N.to_nat i) (norm_zero v) in
+        if negb (leq iback dense' && leq iget dense' && strictly_inc ipos) then V_VIOLATION
+        else match sv_set s i v with
+             | Some s' => svset_walk dense' s' ops' os'
+                            (mm || negb (leq (map fst (snd s')) ipos && leq (map snd (snd s')) ivals))
+             | None => svset_walk dense' s ops' os' true
+             end
+  | _, _ => 9
+  end.
+Definition check_svset (c : svset_case) : N :=
+  let '(d, ops, os) := c in svset_walk (map norm_zero d) (from_dense d) ops os false.
+
 (* fdec: tensor_compress::format::decompress_vector on a forged VectorSparse:
    (dimension, positions as decoded ids, value bits, implementation: None = panicked / error, Some bits) *)
 Definition fdec_case := (N * list N * list N * option (list N))%type.
